@@ -1,5 +1,6 @@
 """C10 - private tables are isolated from the public table and from each other."""
 from contracts import wrappers as W
+from contracts import formulas as FO
 from contracts import core as K
 from contracts import grammar as G
 from contracts import nsf as N
@@ -20,7 +21,7 @@ EXPLANATION = ("Closed step obligations (eval): for each of the nine property mo
 def units(tier):
     # the functions that carry a table through the formula layer: which table an atom is taken from is a value-level
     # question and is under contract; the loader protocol itself is not (see EXPLANATION)
-    return [W.U_FORMULA_CHANGE_TABLE, K.U_CHANGE_TABLE] + G.U_PARSE_FORMULA + K.U_TABLE_ISOTOPE + [K.U_SYMBOL] + K.U_GET_TABLE + K.U_MAKE
+    return [W.U_FORMULA_CHANGE_TABLE, K.U_CHANGE_TABLE] + G.U_PARSE_FORMULA + K.U_TABLE_ISOTOPE + [K.U_SYMBOL] + K.U_GET_TABLE + K.U_MAKE + [FO.U_CHANGE_TABLE_STRUCT, FO.U_CHANGE_TABLE_ATOM]
 
 
 def runner_tasks(tier):
